@@ -88,7 +88,7 @@ func TestVerifC13(t *testing.T) {
 			}
 		}},
 	}
-	entries := []string{"get", "put", "batch-shared-ctx", "batch-own-ctx-only-call", "batch-own-ctx-one-of-two", "scan"}
+	entries := []string{"get", "put", "batch-shared-ctx", "batch-own-ctx-only-call", "batch-own-ctx-one-of-two", "scan", "scan-mid-region"}
 	kinds := []string{"cancel", "deadline"}
 
 	for _, st := range states {
@@ -101,6 +101,10 @@ func TestVerifC13(t *testing.T) {
 						continue
 					}
 				}
+				if entry == "scan-mid-region" && st.name != "silent-server" && st.name != "retry-backoff" {
+					// a scanner that holds an open region scanner only talks to that region's server
+					continue
+				}
 				name := fmt.Sprintf("%s/%s/%s", st.name, entry, kind)
 				synctest.Test(t, func(t *testing.T) {
 					tr := &verifsim.Trace{}
@@ -108,6 +112,9 @@ func TestVerifC13(t *testing.T) {
 					cl.AddServer("ms")
 					cl.AddServer("rs1")
 					cl.CreateTable("t", nil, []string{"rs1"})
+					for _, k := range []string{"r1", "r2", "r3", "r4"} {
+						cl.PutRow("t", []byte(k), []verifsim.KV{{Row: []byte(k), Family: []byte("f"), Qualifier: []byte("q"), Timestamp: 1, Type: 4, Value: []byte("v")}})
+					}
 					release := make(chan struct{})
 					queue := st.queue
 					if queue == 0 {
@@ -125,6 +132,25 @@ func TestVerifC13(t *testing.T) {
 						c.Get(g)
 						synctest.Wait()
 					}
+					var ctx context.Context
+					var cancel context.CancelFunc
+					var midScan hrpc.Scanner
+					t0 := time.Now()
+					deadline := st.after + 150*time.Millisecond
+					if entry == "scan-mid-region" {
+						// the scanner is created and reads one row BEFORE the state is set up: it then holds an open region scanner
+						if kind == "deadline" {
+							ctx, cancel = context.WithDeadline(context.Background(), t0.Add(deadline))
+						} else {
+							ctx, cancel = context.WithCancel(context.Background())
+						}
+						sc, _ := hrpc.NewScanStr(ctx, "t", hrpc.NumberOfRows(1))
+						midScan = c.Scan(sc)
+						if _, err := midScan.Next(); err != nil {
+							rep.bad("harness:c13-scan", "%s: the first Next of the warm scanner failed: %v", name, err)
+						}
+						synctest.Wait()
+					}
 					if st.name != "busy-send-queue" {
 						cl.Lock()
 						st.setup(cl, release)
@@ -138,14 +164,13 @@ func TestVerifC13(t *testing.T) {
 						time.Sleep(20 * time.Millisecond)
 						synctest.Wait()
 					}
-					t0 := time.Now()
-					var ctx context.Context
-					var cancel context.CancelFunc
-					deadline := st.after + 150*time.Millisecond
-					if kind == "deadline" {
-						ctx, cancel = context.WithDeadline(context.Background(), t0.Add(deadline))
-					} else {
-						ctx, cancel = context.WithCancel(context.Background())
+					if midScan == nil {
+						t0 = time.Now()
+						if kind == "deadline" {
+							ctx, cancel = context.WithDeadline(context.Background(), t0.Add(deadline))
+						} else {
+							ctx, cancel = context.WithCancel(context.Background())
+						}
 					}
 					defer cancel()
 					var mu sync.Mutex
@@ -169,6 +194,8 @@ func TestVerifC13(t *testing.T) {
 						case "scan":
 							s, _ := hrpc.NewScanStr(ctx, "t")
 							_, err = c.Scan(s).Next()
+						case "scan-mid-region":
+							_, err = midScan.Next()
 						case "batch-shared-ctx":
 							p1, _ := hrpc.NewPut(ctx, []byte("t"), []byte("k1"), vals)
 							p2, _ := hrpc.NewPut(ctx, []byte("t"), []byte("k2"), vals)
